@@ -1,0 +1,93 @@
+package ast
+
+import (
+	"fmt"
+)
+
+// Validate checks that the description announced by the kind of the type is
+// present, recursively. Types built by the parsers satisfy this by
+// construction; types described in configuration files need to be checked
+// before any accessor (AsScalar(), AsRef(), …) is used on them.
+func (t Type) Validate() error {
+	missing := func() error {
+		return fmt.Errorf("type of kind '%s' without its description", t.Kind)
+	}
+
+	switch t.Kind {
+	case KindScalar:
+		if t.Scalar == nil {
+			return missing()
+		}
+	case KindRef:
+		if t.Ref == nil {
+			return missing()
+		}
+	case KindConstantRef:
+		if t.ConstantReference == nil {
+			return missing()
+		}
+	case KindComposableSlot:
+		if t.ComposableSlot == nil {
+			return missing()
+		}
+	case KindEnum:
+		if t.Enum == nil {
+			return missing()
+		}
+		if len(t.Enum.Values) == 0 {
+			return fmt.Errorf("enum without values")
+		}
+		for _, member := range t.Enum.Values {
+			if err := member.Type.Validate(); err != nil {
+				return err
+			}
+		}
+	case KindArray:
+		if t.Array == nil {
+			return missing()
+		}
+		return t.Array.ValueType.Validate()
+	case KindMap:
+		if t.Map == nil {
+			return missing()
+		}
+		if err := t.Map.IndexType.Validate(); err != nil {
+			return err
+		}
+		return t.Map.ValueType.Validate()
+	case KindStruct:
+		if t.Struct == nil {
+			return missing()
+		}
+		for _, field := range t.Struct.Fields {
+			if err := field.Type.Validate(); err != nil {
+				return fmt.Errorf("field '%s': %w", field.Name, err)
+			}
+		}
+	case KindDisjunction:
+		if t.Disjunction == nil {
+			return missing()
+		}
+		if len(t.Disjunction.Branches) == 0 {
+			return fmt.Errorf("disjunction without branches")
+		}
+		for _, branch := range t.Disjunction.Branches {
+			if err := branch.Validate(); err != nil {
+				return err
+			}
+		}
+	case KindIntersection:
+		if t.Intersection == nil {
+			return missing()
+		}
+		for _, branch := range t.Intersection.Branches {
+			if err := branch.Validate(); err != nil {
+				return err
+			}
+		}
+	default:
+		return fmt.Errorf("unknown type kind '%s'", t.Kind)
+	}
+
+	return nil
+}
